@@ -4,10 +4,11 @@ import itertools
 ID = "C05"
 HARNESSES = [dict(name="ppp", pkg="./pkg/ppp/", test="TestVerifC05", timeout=900,
                   files=[("pkg/ppp/zz_verif_c05_test.go", "harness/C05/zz_verif_c05_test.go")])]
-VARIANTS = ["repaired", "defective"]
-RULE = ("One case = one whole event history applied to a fresh FSM (kind fsm: mock option handler whose answer class "
-        "good/nak/rej/both/malformed is chosen per Configure-Request; kinds lcp/ipcp/ipv6cp: the real handlers with "
-        "payloads of known class), restart timer fired only by the explicit T event. Exhaustive part: ~30 canonical "
+# repaired = both fix patches applied; defective = fsm.go as it stands; the other two = exactly one patch applied
+VARIANTS = ["repaired", "defective", "cells_unfixed", "ncp_unfixed"]
+RULE = ("One case = one whole event history applied to a fresh FSM (kinds fsm / ncp: mock option handler whose answer "
+        "class good/nak/rej/both/malformed is chosen per Configure-Request, protocol LCP / IPCP; kinds lcp/ipcp/ipv6cp: "
+        "the real handlers with payloads of known class), restart timer fired only by the explicit T event. Exhaustive part: ~30 canonical "
         "prefixes per configuration (maxConf/maxTerm in {default 10/2, 2/1, 0/0, 1/2, 3/0}) reaching every state with "
         "restart counter zero / positive, each followed by every event of a 53-event alphabet (5 administrative events, "
         "timer, codes 0-14 and 255 x identifier current/next/previous/fixed x answer class x data length) and, for two "
@@ -113,7 +114,7 @@ def gen_cases(rng, tier, budget):
     for _ in range(nrand):
         cases.append(mk("fsm", rng.choice(CONFIGS + [("1", "1"), ("2", "2")]), rand_walk(rng, ln)))
     # 5. the real handlers (glue): prefix x event, and random walks; id wrap-around walk
-    for kind in ("lcp", "ipcp", "ipv6cp"):
+    for kind in ("ncp", "lcp", "ipcp", "ipv6cp"):
         for cfg in (("d", "d"), ("2", "1")):
             for p in prefixes(*cfg):
                 for e in E_FULL:
@@ -146,7 +147,7 @@ def steps(line):
 INIT = (0, 0, 0, 0, 0, 0, [])
 
 
-def rfc_class(op, pre):
+def rfc_class(op, pre, kind="fsm"):
     """RFC 1661 event class of op in the state pre (same rules as Model.classify); None = discarded"""
     if op in ("U", "D", "O", "C"):
         return {"U": "Up", "D": "Down", "O": "Open", "C": "Close"}[op]
@@ -158,6 +159,8 @@ def rfc_class(op, pre):
     idn = {"c": last, "s": (last + 1) % 256, "p": (last - 1) % 256}.get(idv)
     if idn is None:
         idn = int(idv)
+    if 8 <= code <= 11 and kind not in ("fsm", "lcp"):
+        return "RUC"
     if code == 1:
         return None if cls == "m" else ("RCR+" if cls == "g" else "RCR-")
     if code == 2:
@@ -190,18 +193,25 @@ def first_diff(a, b):
 
 
 def cell_at(case, line, i):
-    ops = case.split()[3:]
+    t = case.split()
+    ops = t[3:]
     s = steps(line)
     pre = INIT if i == 0 else s[i - 1]
-    return STATES[pre[0]], rfc_class(ops[i], pre), ops[i]
+    return STATES[pre[0]], rfc_class(ops[i], pre, t[0]), ops[i]
 
 
 def signature(case, impl, models):
-    """the table cell at which the repaired and the defective model first part"""
-    i = first_diff(models["repaired"], models["defective"])
+    """the table cell at which the repaired model and the variant the implementation follows first part"""
+    v = next((v for v in VARIANTS[1:] if models.get(v) == impl), None)
+    if v is None:
+        return None
+    i = first_diff(models["repaired"], models[v])
     if i is None:
         return None
-    st, cl, _ = cell_at(case, models["repaired"], i)
+    st, cl, op = cell_at(case, models["repaired"], i)
+    kind = case.split()[0]
+    if op[0] == "I" and kind not in ("fsm", "lcp") and 8 <= int(op[1:].split(".")[0]) <= 11:
+        return "ncp-code%s" % op[1:].split(".")[0]
     return "cell-%s-%s" % (st, cl)
 
 
@@ -239,12 +249,12 @@ def shrink(case):
                 yield " ".join(head + ops[:k])
     for i in range(n - 1, -1, -1):
         yield " ".join(head + ops[:i] + ops[i + 1:])
-    if head[0] != "fsm":
-        yield " ".join(["fsm"] + head[1:] + ops)
+    if head[0] in ("lcp", "ipcp", "ipv6cp"):
+        yield " ".join([{"lcp": "fsm"}.get(head[0], "ncp")] + head[1:] + ops)
 
 
 def distribution(cases, impl):
-    d = {"kinds": {}, "ops": 0, "events": {}, "cells_hit": 0, "cells_legal_total": 0, "final_states": {},
+    d = {"kinds": {}, "ops": 0, "events": {}, "cells_hit": 0, "cells_total": 0, "final_states": {},
          "max_len": 0, "panics_or_hangs": 0}
     cells = set()
     for c, o in zip(cases, impl):
@@ -259,7 +269,7 @@ def distribution(cases, impl):
         d["max_len"] = max(d["max_len"], len(ops))
         pre = INIT
         for op, x in zip(ops, s):
-            cl = rfc_class(op, pre)
+            cl = rfc_class(op, pre, t[0])
             k = cl or "discarded"
             d["events"][k] = d["events"].get(k, 0) + 1
             cells.add((pre[0], k, pre[1] > 0))
@@ -269,5 +279,5 @@ def distribution(cases, impl):
             d["final_states"][n] = d["final_states"].get(n, 0) + 1
     d["cells_hit"] = len({(a, b) for a, b, _ in cells})
     d["cells_x_counterclass_hit"] = len(cells)
-    d["cells_legal_total"] = 10 * 18
+    d["cells_total"] = 10 * 18 - 9  # 10 states x (17 RFC classes + discarded); RXJ+ arises in Opened only
     return d
